@@ -213,8 +213,8 @@ impl<T: RealNumber + ScalarOperand + AddAssign + SubAssign + MulAssign + DivAssi
     type RowVector = ArrayBase<OwnedRepr<T>, Ix1>;
 
     fn from_row_vector(vec: Self::RowVector) -> Self {
-        let vec_size = vec.len();
-        vec.into_shape((1, vec_size)).unwrap()
+        // works for every memory layout of `vec` (into_shape rejects strided vectors)
+        vec.insert_axis(Axis(0))
     }
 
     fn to_row_vector(self) -> Self::RowVector {
